@@ -176,6 +176,30 @@ def run(ctx):
                               "# first: input 0x%x -> implementation %s ; model (Sf.Enc.%s) %s\n--- script\n%s"
                               % (mv, c.name(), len(d), c.inputs[k], c.out_at("impl", k), "encode" if c.dir == "enc" else "decode", c.out_at("model", k), one.script()), no_input=True)
                 found = True
+        # ---- "results agree ... in every byte order": the LE and BE write kernels of one width must store the same code for the same input ----
+        byname = {c.name(): c for c in camps if c.dir == "enc" and c.rc == 0 and c.impl}
+        npairs = 0
+        for nm, cl in sorted(byname.items()):
+            if "le-" not in nm and not nm.split("-")[1].endswith("le"):
+                continue
+            cb = byname.get(nm.replace(cl.enc, cl.enc[:-2] + "be", 1))
+            if cb is None or cl.enc[:-2] != cb.enc[:-2] or cl.inputs is not cb.inputs and cl.inputs != cb.inputs:
+                continue
+            npairs += 1
+            nb = K.ENCODINGS[cl.enc][1]
+            hl, hb = cl.impl, cb.impl
+            if len(hl) != len(hb):
+                continue
+            for k in range(len(cl.inputs)):
+                bl = bytes.fromhex(hl[2 * nb * k:2 * nb * (k + 1)])
+                bb = bytes.fromhex(hb[2 * nb * k:2 * nb * (k + 1)])
+                if bl[::-1] != bb:
+                    found = True
+                    ctx.violation("byteorder-" + cl.name(), "# C02 (%s build): the little- and big-endian kernels store different values for the same input and settings\n"
+                                  "# campaign %s vs %s, input 0x%x: little-endian file bytes %s, big-endian file bytes %s\n--- script\n%s# --- and the big-endian twin:\n%s"
+                                  % (mv, cl.name(), cb.name(), cl.inputs[k], bl.hex(), bb.hex(), cl.single(k).script(), cb.single(k).script()))
+                    break
+        ctx.notes["byte_order_pairs_compared/" + mv] = npairs
     ctx.sample({"campaign": camps[0].name(), "n_inputs": len(camps[0].inputs), "first_inputs": ["%x" % (v & 0xFFFF) for v in camps[0].inputs[:4]]})
     ctx.sample({"campaign": camps[-1].name(), "n_inputs": len(camps[-1].inputs)})
     if failed and not found:
